@@ -1,0 +1,19 @@
+//go:build verif
+
+package core
+
+// VerifCheckCycles runs one pass of the (unexported) cycle detector over the graph, exactly as
+// BuildState does, and returns the labels of the reported cycle in the order reported (nil if
+// no cycle was reported).
+func VerifCheckCycles(graph *BuildGraph) []BuildLabel {
+	detector := cycleDetector{graph: graph}
+	err := detector.Check()
+	if err == nil {
+		return nil
+	}
+	labels := make([]BuildLabel, len(err.Cycle))
+	for i, t := range err.Cycle {
+		labels[i] = t.Label
+	}
+	return labels
+}
